@@ -449,11 +449,23 @@ def observe_ctor(ctor, cl, start, end):
         if ctor == "targeted":
             m = TargetedLatticeMaze(connection_list=cl, start_pos=tuple(start), end_pos=tuple(end))
         elif ctor == "targeted-np":
-            m = TargetedLatticeMaze(connection_list=cl, start_pos=np.array(start), end_pos=np.array(end))
+            # the caller's own arrays, which the caller goes on using (overwrites in place) once the maze is built: a maze is a value, it
+            # keeps the endpoints it was built with
+            sa, ea = np.array(start), np.array(end)
+            m = TargetedLatticeMaze(connection_list=cl, start_pos=sa, end_pos=ea)
+            sa += 100; ea[:] = -1
         elif ctor == "from_lattice_maze":
-            m = TargetedLatticeMaze.from_lattice_maze(LatticeMaze(connection_list=cl), list(start), list(end))
+            buf = np.array([list(start), list(end)])
+            m = TargetedLatticeMaze.from_lattice_maze(LatticeMaze(connection_list=cl), buf[0], buf[1]) if (start[0] + end[1]) % 2 else \
+                TargetedLatticeMaze.from_lattice_maze(LatticeMaze(connection_list=cl), list(start), list(end))
+            buf += 77
         elif ctor == "solved":
-            m = SolvedMaze(connection_list=cl, solution=[tuple(start), tuple(end)])
+            if (start[0] + end[0]) % 2:
+                sol = np.array([list(start), list(end)])
+                m = SolvedMaze(connection_list=cl, solution=sol)
+                sol -= 50
+            else:
+                m = SolvedMaze(connection_list=cl, solution=[tuple(start), tuple(end)])
         elif ctor == "solved-mid":
             m = SolvedMaze(connection_list=cl, solution=[tuple(start), (0, 0), tuple(end)])
         elif ctor == "solved-from":
